@@ -338,6 +338,67 @@ theorem select_clause_order_term (head head' : List PTok) (segs1 segs2 : List (L
 
 end order
 
+/-! ### the side conditions of the whole-statement theorems, in decidable form -/
+
+/-- the segments of a SELECT token vector behind its head: each a clause keyword (WHERE, GROUP, HAVING, INNER, OUTER,
+LIMIT) followed by tokens none of which is a clause keyword, `;` or `End` — what one gets by cutting the vector in
+front of every clause keyword (stated so that it is decidable on concrete vectors) -/
+def ClauseSegments (segs : List (List PTok)) : Prop :=
+  ∀ seg ∈ segs, seg.head?.map (fun k => decide (ClauseKw k.tok)) = some true ∧ ∀ u ∈ seg.tail, ¬ Boundary u.tok
+
+/-- the head of a SELECT token vector: starts with SELECT, contains no clause keyword, `;` or `End` -/
+def SelectHead (head : List PTok) : Prop :=
+  head.head?.map (·.tok) = some (.kw .select) ∧ ∀ t ∈ head, ¬ Boundary t.tok
+
+/-- the end of a statement's token vector: `End`, or `;` `End` -/
+def IsEnd (e : List PTok) : Prop := e.map (·.tok) = [.eof] ∨ e.map (·.tok) = [.semi, .eof]
+
+instance (segs : List (List PTok)) : Decidable (ClauseSegments segs) := by unfold ClauseSegments; infer_instance
+instance (head : List PTok) : Decidable (SelectHead head) := by unfold SelectHead; infer_instance
+instance (e : List PTok) : Decidable (IsEnd e) := by unfold IsEnd; infer_instance
+
+theorem ClauseSegments.shape {segs : List (List PTok)} (h : ClauseSegments segs) : ∀ seg ∈ segs, SegShape seg := by
+  intro seg hseg
+  obtain ⟨h1, h2⟩ := h seg hseg
+  cases seg with
+  | nil => simp at h1
+  | cons k body =>
+    simp only [List.head?_cons, Option.map_some, Option.some.injEq, decide_eq_true_eq] at h1
+    exact ⟨k, body, rfl, h1, h2⟩
+
+theorem SelectHead.cons {head : List PTok} (h : SelectHead head) : ∃ t ts, head = t :: ts ∧ t.tok = .kw .select := by
+  obtain ⟨h1, _⟩ := h
+  cases head with
+  | nil => simp at h1
+  | cons t ts => exact ⟨t, ts, rfl, by simpa using h1⟩
+
+theorem IsEnd.stmtEnd {e : List PTok} (h : IsEnd e) : StmtEnd e := by
+  rcases h with h | h
+  · match e, h with
+    | [⟨l, _⟩], h => simp only [List.map_cons, List.map_nil, List.cons.injEq, and_true] at h; subst h; exact .eof l
+  · match e, h with
+    | [⟨l, _⟩, ⟨l', _⟩], h =>
+      simp only [List.map_cons, List.map_nil, List.cons.injEq, and_true] at h
+      obtain ⟨rfl, rfl⟩ := h
+      exact .semi l l'
+
+/-- the tokens of a query text in front of `End`: start with SELECT, no `;` among them -/
+def SelectNoSemi (ts : List PTok) : Prop :=
+  ts.head?.map (·.tok) = some (.kw .select) ∧ ∀ t ∈ ts, t.tok ≠ .semi
+
+instance (ts : List PTok) : Decidable (SelectNoSemi ts) := by unfold SelectNoSemi; infer_instance
+
+theorem SelectNoSemi.cons {ts : List PTok} (h : SelectNoSemi ts) : ∃ t rest, ts = t :: rest ∧ t.tok = .kw .select := by
+  obtain ⟨h1, _⟩ := h
+  cases ts with
+  | nil => simp at h1
+  | cons t rest => exact ⟨t, rest, rfl, by simpa using h1⟩
+
+/-- a token vector that starts with SELECT -/
+def SelectVector (toks : List PTok) : Prop := toks.head?.map (·.tok) = some (.kw .select)
+
+instance (toks : List PTok) : Decidable (SelectVector toks) := by unfold SelectVector; infer_instance
+
 end Parse
 
 namespace Pipeline
